@@ -108,5 +108,43 @@ func runC04(c *Ctx) {
 		FieldMatrix(func(t reflect.Type, v reflect.Value) {
 			c04RoundTrip(c, t, v, "marshal")
 		})
+		// every block of code points: the runes at both ends of every run of 64 (quick) or every rune
+		// (thorough), as string values, struct fields and map keys, through the three paths
+		type holder struct {
+			S string
+			M map[string]string
+		}
+		step := 64
+		if c.Thorough() {
+			step = 1
+		}
+		var sb strings.Builder
+		n := 0
+		flush := func() {
+			if n == 0 {
+				return
+			}
+			s := sb.String()
+			h := holder{S: s, M: map[string]string{s: "v", "k": s}}
+			for _, via := range []string{"marshal", "indent", "stream"} {
+				c04RoundTrip(c, reflect.TypeOf(h), reflect.ValueOf(h), via)
+			}
+			sb.Reset()
+			n = 0
+		}
+		for r := rune(0x20); r <= 0x10FFFF; r++ {
+			if r >= 0xD800 && r <= 0xDFFF {
+				continue
+			}
+			if step > 1 && r > 0x2FF && int(r)%step != 0 && int(r)%step != step-1 {
+				continue
+			}
+			sb.WriteRune(r)
+			n++
+			if n == 24 {
+				flush()
+			}
+		}
+		flush()
 	}
 }
